@@ -10,7 +10,7 @@ import (
 // decOpts selects the operation mix of a generated decoder history.
 type decOpts struct {
 	preCap     []int64 // dbuf: capacities of the array the caller hands in before Init (nil: drawn by the property body)
-	vehicle    string // "dbuf" or "dec"
+	vehicle    string  // "dbuf" or "dec"
 	maxOps     int
 	hostile    int // percentage of match/block operands that are hostile
 	faults     bool
